@@ -232,6 +232,8 @@ func goTypeName(p *pkg, e ast.Expr) string {
 		}
 	case *ast.Ellipsis:
 		return "[]" + goTypeName(p, x.Elt)
+	case *ast.MapType:
+		return "map[" + goTypeName(p, x.Key) + "]" + goTypeName(p, x.Value)
 	}
 	return "?"
 }
@@ -312,6 +314,15 @@ func leanOfGoName(p *pkg, g string) (string, bool) {
 		}
 		return "(List " + in + ")", true
 	}
+	if strings.HasPrefix(g, "map[string]") {
+		// a Go map with string keys: its entries as a list of pairs. Only `range` reads it, and the iteration order of a Go map is
+		// unspecified: a theorem about a function that ranges over one must hold for EVERY order of this list.
+		in, ok := leanOfGoName(p, strings.TrimPrefix(g, "map[string]"))
+		if !ok {
+			return "", false
+		}
+		return "(List (Bytes × " + in + "))", true
+	}
 	if strings.HasPrefix(g, "*") {
 		if st := structFor(g[1:]); st != nil { // pointer to a modelled struct: the struct value
 			return st.leanType, true
@@ -381,6 +392,9 @@ func typeOfExpr(p *pkg, e ast.Expr) (ty, bool) {
 	g := goTypeName(p, e)
 	l, ok := leanOfGoName(p, g)
 	for name := range structTable { // a pointer to a modelled struct is the struct value (nil is not modelled)
+		if _, opaque := typeTable["*"+name]; opaque && !concreteTypes[name] {
+			continue // … unless this target sees the pointer as an opaque parameter (*args.Args outside package args)
+		}
 		g = strings.ReplaceAll(g, "*"+name, name)
 	}
 	return ty{l, g}, ok
@@ -2068,13 +2082,32 @@ func (f *fn) forStmt(o *w, init ast.Stmt, cond ast.Expr, post ast.Stmt, body *as
 	if rng != nil {
 		lo.line("if !(decide (%s < len %s)) then return (.next %s)", rngIdx.lean, rngSeq.code, tupleOf(carried))
 		f.push()
-		if rng.Key != nil {
+		if strings.HasPrefix(rngSeq.t.gon, "map[string]") {
+			// for key, value := range M: the entry at the hidden index
+			vg := strings.TrimPrefix(rngSeq.t.gon, "map[string]")
+			vl, ok := leanOfGoName(f.p, vg)
+			if !ok {
+				fail(pos, "range over a map of %s", vg)
+			}
+			kv := fmt.Sprintf("kv%d", f.nloop)
+			lo.line("let %s ← idx %s %s", kv, rngSeq.code, rngIdx.lean)
+			if id, ok := rng.Key.(*ast.Ident); ok && id.Name != "_" {
+				v := f.declare(id.Name, ty{"Bytes", "string"})
+				lo.line("let %s : Bytes := %s.1", v.lean, kv)
+			}
+			if rng.Value != nil {
+				if id, ok := rng.Value.(*ast.Ident); ok && id.Name != "_" {
+					v := f.declare(id.Name, ty{vl, vg})
+					lo.line("let %s : %s := %s.2", v.lean, vl, kv)
+				}
+			}
+		} else if rng.Key != nil {
 			if id, ok := rng.Key.(*ast.Ident); ok && id.Name != "_" {
 				v := f.declare(id.Name, intTy)
 				lo.line("let %s : Int := %s", v.lean, rngIdx.lean)
 			}
 		}
-		if rng.Value != nil {
+		if rng.Value != nil && !strings.HasPrefix(rngSeq.t.gon, "map[string]") {
 			if id, ok := rng.Value.(*ast.Ident); ok && id.Name != "_" {
 				v := f.declare(id.Name, rngSeq.t.elem())
 				lo.line("let %s ← idx %s %s", v.lean, rngSeq.code, rngIdx.lean)
